@@ -19,8 +19,8 @@ func init() {
 			"R12b blank-on-reuse: the reset function stores every field of Node on every path, links/data with zero values and ID with the result of the atomic counter function; " +
 			"R12c the ID counter variable is only ever the address operand of sync/atomic calls; " +
 			"R12d every nodePool.Put(x) is dominated by reset(x); pool New returns a reset node; pool Get only inside idr; no field of a node is read after the same value was released in that function; " +
-			"R12e typestate: every RemoveAndReleaseTree(e) whose operand is loaded from a holder field is followed on every path by an overwrite of that field before it is read again or the function returns; Release(n)-style methods clear each holder field (guarded by n == H or unconditionally) before releasing; " +
-			"R12f every AddChild(p, c): c is a node that was created in the same function (or produced by a node-building function) and is attached at most once per creation; " +
+			"R12e typestate: every RemoveAndReleaseTree(e) whose operand is loaded from a holder field is followed on every path by an overwrite of that field before it is read again or the function returns; Release(n)-style methods clear each holder field (guarded by n == H or unconditionally) before releasing, in the method itself or in a method of the same receiver it calls with the node bound on every path before the release; " +
+			"R12f every AddChild(p, c): c is a node that was created in the same function (or produced by a node-building function) and is attached at most once per creation; a parameter of an unexported helper that is only called statically is judged at every call site, and the call site counts as the attachment; " +
 			"R12g shape check of the link surgery: AddChild and RemoveAndReleaseTree are abstractly interpreted over all well-formed sibling lists of up to 4 children (every position), and the resulting abstract heap must satisfy the doubly-linked-list invariant.",
 		NotDecided: "cursor fields (cur/root) and stale stack-entry pointers after a release (O1/O2 in DESIGN.md) are argued, not checked; trees built by caller-supplied readers; lists longer than the bound of R12g (the surgery only touches n, its parent and its two neighbours, so the bound covers every aliasing case).",
 		Trusted:    append([]string{"sync.Pool and sync/atomic are synchronised as documented"}, commonTrusted...),
@@ -61,6 +61,8 @@ type c12roles struct {
 	counterFn *ssa.Function
 	counterG  *ssa.Global
 	pools     []*ssa.Global
+	ctx       *core.Ctx
+	j1idx     *j1CallIndex
 }
 
 func isPtrToNamed(t types.Type, n *types.Named) bool {
@@ -90,7 +92,7 @@ func (r *c12roles) nodeAPIFunc(f *ssa.Function) bool {
 }
 
 func resolveC12(c *core.Ctx) *c12roles {
-	r := &c12roles{links: map[*types.Var]bool{}}
+	r := &c12roles{links: map[*types.Var]bool{}, ctx: c}
 	p := c.Pkg("idr")
 	if p == nil {
 		c.Unresolved("R12", "package idr", "package idr not found")
@@ -796,6 +798,16 @@ func readsField(f *ssa.Function, fld *types.Var, depth int) bool {
 // clearsHolder: before `release`, f stores nil into recv.fld either unconditionally (dominating) or on
 // the true edge of `param == recv.fld` (either operand order), with that test dominating the release.
 func clearsHolder(f *ssa.Function, p *ssa.Parameter, fld *types.Var, release ssa.Instruction) bool {
+	return clearsHolderDepth(f, p, fld, release, 0)
+}
+
+// clearsHolderDepth: the clearing may also sit in a method of the same receiver that is called, with the
+// parameter bound, on every path before the release (clearsHolderViaHelper).
+func clearsHolderDepth(f *ssa.Function, p *ssa.Parameter, fld *types.Var, release ssa.Instruction, depth int) bool {
+	return clearsHolderLocal(f, p, fld, release) || clearsHolderViaHelper(f, p, fld, release, depth)
+}
+
+func clearsHolderLocal(f *ssa.Function, p *ssa.Parameter, fld *types.Var, release ssa.Instruction) bool {
 	// the release sits on an edge on which the parameter is known to differ from the holder: nothing to clear
 	for _, b := range f.Blocks {
 		ifi, ok := b.Instrs[len(b.Instrs)-1].(*ssa.If)
@@ -871,17 +883,36 @@ func clearsHolder(f *ssa.Function, p *ssa.Parameter, fld *types.Var, release ssa
 // ---------------------------------------------------------------- R12f
 
 func runR12f(c *core.Ctx, r *c12roles, fns []*ssa.Function) {
+	helpers := j1AttachHelpers(r, fns)
 	for _, f := range fns {
 		if r.nodeAPIFunc(f) {
 			continue
 		}
 		attached := map[ssa.Value]int{}
 		for _, ci := range core.Calls(f) {
-			if ci.Common().StaticCallee() != r.addChild {
+			cf := ci.Common().StaticCallee()
+			if cf == nil || ci.Common().IsInvoke() {
 				continue
 			}
-			child := ci.Common().Args[1]
+			var child ssa.Value
 			key := core.FuncKey(f) + " AddChild"
+			if cf == r.addChild {
+				child = ci.Common().Args[1]
+			} else if idxs := helpers[cf]; len(idxs) == 1 {
+				// a call of an attaching helper is an attachment of the argument in this function
+				for j := range idxs {
+					if j < len(ci.Common().Args) {
+						child = ci.Common().Args[j]
+					}
+				}
+				key = core.FuncKey(f) + " AddChild via " + cf.Name()
+			} else if len(idxs) > 1 {
+				c.Unknown("R12f", core.FuncKey(f)+" AddChild via "+cf.Name(), core.InstrPos(ci), "helper attaches more than one of its parameters")
+				continue
+			}
+			if child == nil {
+				continue
+			}
 			src, ok := freshNodeSource(child, r, 0)
 			if !ok {
 				c.Bad("R12f", key, core.InstrPos(ci), "attached child is not a node freshly created (or built) in this function: "+src+" — a node that may already have a parent would end up in two sibling lists")
@@ -940,7 +971,23 @@ func freshNodeSource(v ssa.Value, r *c12roles, depth int) (string, bool) {
 			return lastStoresFresh(x, r, depth)
 		}
 	case *ssa.Parameter:
-		return "parameter " + x.Name(), false
+		// parameter of an unexported helper that is only called statically: it is exactly the argument at
+		// each call site; judge the freshness there (the call site also counts as the attachment, runR12f).
+		g := x.Parent()
+		cs, why := r.privateHelperCallers(g)
+		if cs == nil {
+			return "parameter " + x.Name() + " (" + why + ")", false
+		}
+		j := paramIndex(g, x)
+		for _, ci := range cs {
+			if j < 0 || j >= len(ci.Common().Args) {
+				return "parameter " + x.Name(), false
+			}
+			if d, ok := freshNodeSource(ci.Common().Args[j], r, depth+1); !ok {
+				return "parameter " + x.Name() + ", which is at the call in " + core.FuncKey(ci.Parent()) + ": " + d, false
+			}
+		}
+		return fmt.Sprintf("parameter %s of a helper whose %d call site(s) all pass a fresh node", x.Name(), len(cs)), true
 	}
 	return fmt.Sprintf("%T", v), false
 }
